@@ -120,6 +120,18 @@ public:
         return min_weight_;
     }
 
+    void rollback(std::size_t iteration) override
+    {
+        // a checkpoint that was read from a stream does not know the first channel weights if there
+        // are results; recover them from the first result if all results are removed
+        if ((iteration == 0) && first_channel_weights_.empty() && !this->results().empty())
+        {
+            first_channel_weights_ = this->results().front().channel_weights();
+        }
+
+        chkpt<multi_channel_result<T>>::rollback(iteration);
+    }
+
     void serialize(std::ostream& out) const override
     {
         chkpt<multi_channel_result<T>>::serialize(out);
